@@ -16,7 +16,7 @@ import math
 import numpy as np
 from . import tlc, filt, pool
 
-INV = ["Proper", "NoseDirection", "DownInBody", "Conventions", "RoundTrip", "EulerIsAxisProduct", "ExpAxisGroupLaw", "DiagCubed", "Sense"]
+INV = ["Proper", "NoseDirection", "DownInBody", "Conventions", "RoundTrip", "EulerIsAxisProduct", "ExpAxisGroupLaw", "DiagCubed", "Sense", "PairAngles"]
 ANG = {0: 0.0, 1: 90.0, 2: 180.0, 3: -90.0}
 
 
@@ -149,7 +149,8 @@ def check(rep, pid, tier, seed):
         v = tlc.parse_value(line)
         if isinstance(v, tuple) and v and v[0] == "ATT":
             _, kind, a, b, c, M, back = v
-            cfgs.append((kind, a, b, c, [list(x) for x in M], list(back)))
+            if kind != "pair":           # the pairs are replayed by C18 (resample_state)
+                cfgs.append((kind, a, b, c, [list(x) for x in M], list(back)))
     if len(cfgs) != 84:
         rep.machinery("Attitude printed %d configurations, expected 84" % len(cfgs))
     m = filt._imports()
